@@ -291,6 +291,15 @@ def request_to_qlink_1_0(
         raise ValueError(f"Cannot convert request {request} to qlink-interface 1.0")
 
 
+def bell_state_from_qlink_1_0(
+    bell_state: Union[qlink_1_0.BellState, int]
+) -> BellState:
+    """Convert a Bell state of qlink-interface 1.0 (an enum member or its integer
+    value). The two enums number the Bell states differently, so the conversion
+    goes by name."""
+    return BellState[qlink_1_0.BellState(bell_state).name]
+
+
 def response_from_qlink_1_0(response: T_LinkLayer_1_0_Response) -> T_LinkLayerResponse:
     if isinstance(response, qlink_1_0.ResCreateAndKeep):
         return LinkLayerOKTypeK(
@@ -303,7 +312,7 @@ def response_from_qlink_1_0(response: T_LinkLayer_1_0_Response) -> T_LinkLayerRe
             remote_node_id=response.remote_node_id,
             goodness=response.goodness,
             goodness_time=response.time_of_goodness,
-            bell_state=response.bell_state,
+            bell_state=bell_state_from_qlink_1_0(response.bell_state),
         )
     elif isinstance(response, qlink_1_0.ResMeasureDirectly):
         return LinkLayerOKTypeM(
@@ -316,7 +325,7 @@ def response_from_qlink_1_0(response: T_LinkLayer_1_0_Response) -> T_LinkLayerRe
             purpose_id=response.purpose_id,
             remote_node_id=response.remote_node_id,
             goodness=response.goodness,
-            bell_state=response.bell_state,
+            bell_state=bell_state_from_qlink_1_0(response.bell_state),
         )
     elif isinstance(response, qlink_1_0.ResError):
         return LinkLayerErr(
